@@ -4,6 +4,7 @@
 //! `new`/`new_from_anchors`: from(to_string()) == id, from(key()) == id, key() == to_string()+".delta";
 //! new_from_anchors(d, A).index() == 1 + max index in A (1 when A is empty); `cmp` is lexicographic
 //! on (index, digest) and consistent with `==`.
+use super::FailureClasses;
 use crate::Report;
 use melda::melda::DeltaId;
 use serde_json::{json, Value};
@@ -200,10 +201,12 @@ pub fn run(thorough: bool, _seed: u64) -> Report {
     }
     inputs.sort();
     inputs.dedup();
+    let mut classes = FailureClasses::new(2);
     for s in &inputs {
         rep.case(&format!("from:{}", s), contains_pattern(s));
         if let Err(w) = check_from(s) {
-            rep.fail(&format!("from:{}", s), json!({"kind": "from", "s": s}), &w);
+            let class = if w.starts_with("panic") { "from-panic" } else { "from-other" };
+            classes.fail(&mut rep, class, &format!("from:{}", s), json!({"kind": "from", "s": s}), &w);
         }
     }
     let digests = ["ab", "0f3c", "a_b", HEX];
@@ -212,14 +215,14 @@ pub fn run(thorough: bool, _seed: u64) -> Report {
         rep.case(&format!("new:{}", d), false);
         match check_built(d, None) {
             Ok(id) => built.push(id),
-            Err(w) => rep.fail(&format!("new:{}", d), json!({"kind": "built", "digest": d, "anchors": Value::Null}), &w),
+            Err(w) => classes.fail(&mut rep, "built", &format!("new:{}", d), json!({"kind": "built", "digest": d, "anchors": Value::Null}), &w),
         }
         for a in anchor_sets() {
             let key = format!("anchors:{}:{:?}", d, a);
             rep.case(&key, !a.is_empty());
             match check_built(d, Some(&a)) {
                 Ok(id) => built.push(id),
-                Err(w) => rep.fail(&key, json!({"kind": "built", "digest": d, "anchors": a}), &w),
+                Err(w) => classes.fail(&mut rep, "built", &key, json!({"kind": "built", "digest": d, "anchors": a}), &w),
             }
         }
     }
@@ -230,10 +233,11 @@ pub fn run(thorough: bool, _seed: u64) -> Report {
             let key = format!("cmp:{}|{}", a, b);
             rep.case(&key, a.index() == b.index());
             if let Err(w) = check_cmp(a, b) {
-                rep.fail(&key, json!({"kind": "cmp", "a": a.to_string(), "b": b.to_string()}), &w);
+                classes.fail(&mut rep, "cmp", &key, json!({"kind": "cmp", "a": a.to_string(), "b": b.to_string()}), &w);
             }
         }
     }
+    classes.summary("deltaid");
     rep
 }
 
